@@ -6,6 +6,7 @@ from .checks_explainers import ExplainerCheck
 from .plan import (gen_explainer_plan, gen_batch_plan, gen_world_config, gen_schedule, strip_private, wchoice,
                    gen_batch_config, gen_batch_schedule, Builder)
 from .oracles.explainers import C15Oracle, C16Oracle, C17Oracle
+from .execute import run_plan
 
 NAME_KINDS = ["str", "int", "float", "mixed"]
 
@@ -239,6 +240,10 @@ class C17Check(ExplainerCheck):
             ops = pre + gen_batch_schedule(rng, cfg)
         else:
             cfg = gen_world_config(rng, "mixed")
+            if rng.random() < 0.3 and cfg["arith"] != "npfloat":
+                # label sets that grow when the model learns, with labels omitted by later predictions
+                cfg["model"] = {"family": "multi", "seed": rng.getrandbits(32), "labels": rng.randint(2, 4), "grow": True,
+                                "omit": rng.random() < 0.7}
             b = Builder(rng, cfg)
             if style == "incremental":
                 prestore_ops(rng, cfg, b)
@@ -259,6 +264,12 @@ class C17Check(ExplainerCheck):
         # inject faults into explain operations
         idxs = [i for i, op in enumerate(ops) if op["op"] == "explain" and not op.get("expect_raise")]
         rng.shuffle(idxs)
+        if rng.random() < 0.4:
+            # bias: the first explain after a learn operation (a label set may just have grown)
+            after_learn = [i for i in idxs if i > 0 and ops[i - 1]["op"] == "learn"]
+            if after_learn:
+                idxs.remove(after_learn[0])
+                idxs.insert(0, after_learn[0])
         n_f = wchoice(rng, [(1, 50), (2, 30), (3, 20)])
         chosen = sorted(idxs[:n_f])
         if chosen and rng.random() < 0.3 and chosen[0] + 1 < len(ops):
@@ -286,6 +297,30 @@ class C17Check(ExplainerCheck):
 
     def nontrivial(self, res):
         return sum(res.get("faults_fired", {}).values()) > 0 or any(k.startswith("fault:") for k in res.get("probes", {}))
+
+    def run(self, plan):
+        res = super().run(plan)
+        fired = sum(res.get("faults_fired", {}).values()) + sum(
+            n for k, n in res.get("probes", {}).items() if k.startswith("fault:") and k.endswith(":natural"))
+        if res.get("aborted") and res["ok"] and fired > 0:
+            # The library raised on its own in a fault-free operation AFTER an earlier call had failed.  Control run:
+            # the same plan without the injected faults.  If that runs past this point, the crash is a consequence of the
+            # earlier failure ("after catching the error and continuing the stream ..." is impossible): a C17 violation.
+            at = res.get("aborted_at", 0)
+            control = copy.deepcopy(plan)
+            for op in control["ops"]:
+                op.pop("fault", None)
+            cres = run_plan(control, lambda world, p: [])
+            cres.pop("world", None)
+            if not cres.get("aborted") or cres.get("aborted_at", -1) > at:
+                op = plan["ops"][at]
+                res["ok"] = False
+                res["violation"] = {"property": "C17", "oracle": "resumed-stream-raised", "op_index": at,
+                                    "detail": "after an earlier failed call, fault-free operation %d (%s) raised %s; the same "
+                                              "schedule without the injected fault runs through" % (at, op.get("op"), res["aborted"]),
+                                    "cls": plan["config"]["explainers"][op["e"]]["cls"] if "e" in op else None}
+                res["aborted"] = None
+        return res
 
     def reductions(self, plan):
         out = []
